@@ -336,7 +336,9 @@ func (t *Transport) handleLinkLost(addrStr string, lnk *Link) {
 	}
 	t.mtx.Unlock()
 
-	if t.handler != nil && rel {
+	// a link replaced in the table by a newer session from the same address is
+	// lost all the same: the handler was told about it when it was established.
+	if t.handler != nil {
 		t.handler.HandleLinkLost(lnk)
 	}
 }
